@@ -49,4 +49,32 @@ theorem parse_text (fuel : Nat) (s : Array Cp) (ns : List Node) (h : parseTrees 
     obtain ⟨tail, ht, hws, _⟩ := C04.statements_partition_text s sts hsts
     exact ⟨tail, by rw [group_statements_text fuel sts ns h]; exact ht, hws⟩
 
+/-- **split() agrees with parse()** (the clause of C04 that needs the grouping model): whenever both return, `split(text)` is exactly
+`[str(st).strip() for st in parse(text)]` — same number of pieces, same order, same characters. -/
+theorem split_is_stripped_parse (fuel : Nat) (s : Array Cp) (ns : List Node) (ps : List Text)
+    (hp : parseTrees fuel s = .ok ns) (hs : split s = .ok ps) : ps = ns.map (pyStrip ∘ Node.text) := by
+  unfold parseTrees at hp
+  unfold split at hs
+  cases hl : lexSplit s with
+  | error e => rw [hl] at hp; cases hp
+  | ok sts =>
+    rw [hl] at hp hs
+    simp only [Except.map] at hs
+    injection hs with hs
+    subst hs
+    have h := group_statements_text fuel sts ns hp
+    have h2 : (ns.map Node.text).map pyStrip = (sts.map stmtText).map pyStrip := by rw [h]
+    simpa [List.map_map, Function.comp_def] using h2.symm
+
+/-- and `parse` returns whenever `split` does, unless grouping runs out of recursion depth: the only error grouping can add is
+`RecursionError` (cited from C07's `grouping_total`; stated here for the statement list) — so the two entry points fail together on lexer /
+splitter errors and otherwise differ only by that error. -/
+theorem parse_fails_only_where_split_fails_or_depth (fuel : Nat) (s : Array Cp) (e : PyErr)
+    (hp : parseTrees fuel s = .error e) : split s = .error e ∨ ∃ sts, lexSplit s = .ok sts ∧ groupStatements fuel sts = .error e := by
+  unfold parseTrees at hp
+  unfold split
+  cases hl : lexSplit s with
+  | error e' => rw [hl] at hp; injection hp with hp; subst hp; left; rfl
+  | ok sts => rw [hl] at hp; right; exact ⟨sts, rfl, hp⟩
+
 end Sql.C02
